@@ -302,7 +302,7 @@ fn slab_ref(b: &AABB, o: [f64; 3], d: [f64; 3]) -> Option<bool> {
 
 /// AABB::intersects against the f64 slab reference, and BVH over plain WallGeom elements (no box pre-check on
 /// the element side) against the one-by-one polygon test
-fn run_aabb_and_wallgeom(ctx: &Ctx) {
+fn run_aabb_and_wallgeom(ctx: &Ctx, bvh_terminates: bool) {
     let rs = rays();
     let mut boxes = box_alphabet();
     boxes.extend(elements_for(&BvhCase::Lattice(40)));
@@ -322,6 +322,13 @@ fn run_aabb_and_wallgeom(ctx: &Ctx) {
                 ctx.violation(&format!("aabb.intersects:{}{}", if got { "false-hit" } else { "missed-hit" }, if negzero { ":direction-with-negative-zero" } else { "" }), &format!("box {:?} ray origin {:?} dir {:?}: intersects={} expected {}", b, r.origin, r.dir, got, exp), json!({"kind": "aabb", "box": bi, "ray": ri}));
             }
         }
+    }
+    if !bvh_terminates {
+        // some supervised build did not return: building in this process could loop or exhaust memory
+        ctx.note("in_process_bvh_families_skipped", json!("a supervised BVH build did not return"));
+        ctx.eval(n);
+        ctx.note("aabb_and_wallgeom", json!({"comparisons": n, "expected_hits": hits}));
+        return;
     }
     // BVH<WallGeom>
     for k in [1usize, 2, 5, 31, 40] {
@@ -374,7 +381,7 @@ fn run_aabb_and_wallgeom(ctx: &Ctx) {
     ctx.note("aabb_and_wallgeom", json!({"comparisons": n, "expected_hits": hits}));
 }
 
-fn run_bvh(ctx: &Ctx) {
+fn run_bvh(ctx: &Ctx) -> bool {
     let cases = bvh_cases(ctx.tier);
     let idxs: Vec<u64> = (0..cases.len() as u64).collect();
     let space = format!("c13bvh-{}", ctx.tier.name());
@@ -422,6 +429,9 @@ fn run_bvh(ctx: &Ctx) {
     ctx.note("bvh", json!({"cases": cases.len(), "ray_queries_compared": s.0, "ray_queries_blocked": s.1, "cases_nonempty_ok": s.2}));
     ctx.sample(json!({"kind": "bvh", "case": format!("{:?}", cases[cases.len() / 3])}));
     ctx.sample(json!({"kind": "bvh", "case": format!("{:?}", cases[cases.len() - 1])}));
+    // did every supervised build return? (the in-process builds below are only safe then)
+    let terminates = hangs.load(std::sync::atomic::Ordering::Relaxed) == 0;
+    terminates
 }
 
 // ------------------------------------------------------------------ (b) ray / polygon exact
@@ -788,8 +798,8 @@ fn run_reveals(ctx: &Ctx) {
 }
 
 pub fn run(ctx: &Ctx) -> i32 {
-    run_bvh(ctx);
-    run_aabb_and_wallgeom(ctx);
+    let bvh_terminates = run_bvh(ctx);
+    run_aabb_and_wallgeom(ctx, bvh_terminates);
     run_polys(ctx);
     run_reveals(ctx);
     ctx.finish(
